@@ -97,7 +97,7 @@ func has(c *sim.CaseStats, ks ...string) bool {
 const caseText = "case = drawn world (1-5 nodes, per-node Config feature vector, bootstrap style) + up to S rapid-drawn actions from the profile's weight table (ticks, Ready sub-steps, storage-thread steps, deliver/dup/drop/partition, local API calls, crash/restart, compaction); distinct = 64-bit digest of the full action sequence, merged across shards; "
 
 func TestC01(t *testing.T) {
-	simCheck(t, spec{Prop: "C01", Profiles: []string{"base", "conf", "crash", "snap"}, Steps: [2]int{300, 900},
+	simCheck(t, spec{Prop: "C01", Profiles: []string{"base", "conf", "crash", "snap", "flow"}, Steps: [2]int{300, 900},
 		RuleText: caseText + "non-trivial = >=2 distinct nodes were handed a common index AND the case had a second election, a restart, an applied conf change or a snapshot install",
 		Rule: func(c *sim.CaseStats) bool {
 			return has(c, "apply.shared_index") && (ge(c, "leader.elected", 2) || has(c, "restart", "conf.applied", "snap.installed"))
@@ -131,7 +131,7 @@ func TestC04(t *testing.T) {
 func TestC05(t *testing.T) {
 	simCheck(t, spec{Prop: "C05", Profiles: []string{"crash"}, Owned: []string{"C05", "C01", "C02", "C03", "C04"}, Steps: [2]int{300, 900},
 		RuleText: caseText + "non-trivial = a crash hit a node holding un-persisted promises (queued after-append responses, a Ready between take and send, or a non-empty append queue)",
-		Rule: func(c *sim.CaseStats) bool { return has(c, "crash.with_pending_promises") }})
+		Rule:     func(c *sim.CaseStats) bool { return has(c, "crash.with_pending_promises") }})
 }
 
 func TestC06(t *testing.T) {
